@@ -1,9 +1,99 @@
 import Drive.Json
-/-! Line-protocol handlers: Async (stub until the model lands). -/
+import PlaybackModel.Async
+/-! Line-protocol handlers for the asynchronous cassette model (C12).
+
+* `c12.run`  : `{"programs":[[op..]..],"sched":[step..],"recs":[n..],"cfg":{..}?}` → the state after the schedule
+* `c12.sync` : `{"programs":[[op..]..],"recs":[n..]}` → the synchronous twin (producers one after the other)
+
+op   = `{"p":producer,"q":seq,"r":recording,"k":"set"|"meta"|"save","key":n,"val":n,"x":poisoned}`
+step = `"p<i>"` (produce i) | `"check"` | `"lock"` | `"swap"` | `"exec"` | `"timer"` | `"close"`
+-/
 open Lean
 namespace Drive.Async
-open Drive
+open Drive PlaybackModel.Async
 
-def handlers : List (String × Handler) := []
+def toOp (j : Json) : Except String Op := do
+  let k ← strField j "k"
+  let kind ← match k with
+    | "set" => do pure (Kind.setData (← natField j "key") (← natField j "val"))
+    | "meta" => do pure (Kind.addMeta (← natField j "key") (← natField j "val"))
+    | "save" => pure Kind.save
+    | _ => throw s!"bad op kind {k}"
+  let x := match optField j "x" with
+    | some (.bool b) => b
+    | _ => false
+  pure { prod := (← natField j "p"), seq := (← natField j "q"), recId := (← natField j "r"), kind := kind, poison := x }
+
+def toStep (j : Json) : Except String Step := do
+  let s ← asStr j
+  match s with
+  | "check" => pure .check
+  | "lock" => pure .lock
+  | "swap" => pure .swap
+  | "exec" => pure .exec
+  | "timer" => pure .timer
+  | "close" => pure .close
+  | _ =>
+    if s.startsWith "p" then
+      match (s.drop 1).toNat? with
+      | some i => pure (.produce i)
+      | none => throw s!"bad step {s}"
+    else throw s!"bad step {s}"
+
+def toCfg (j : Json) : Cfg :=
+  let flag (k : String) : Bool := match optField j k with
+    | some (.bool b) => b
+    | _ => true
+  { finalFlush := flag "finalFlush", continueAfterFailure := flag "continueAfterFailure",
+    releaseBeforeExec := flag "releaseBeforeExec" }
+
+def opId (o : Op) : Json := jArr [jNat o.prod, jNat o.seq]
+
+def kvs (l : List (Nat × Nat)) : Json := jArr (l.map fun (k, v) => jArr [jNat k, jNat v])
+
+def recJson (r : RecSt) : Json :=
+  jObj [("data", kvs r.data), ("meta", kvs r.md), ("closed", Json.bool r.closed),
+        ("saved", match r.saved with
+                  | none => Json.null
+                  | some (d, m) => jArr [kvs d, kvs m])]
+
+def storeJson (w : Store) (recs : List Nat) : Json := jArr (recs.map fun n => jArr [jNat n, recJson (w n)])
+
+def flJson : Fl → Json
+  | .atTop => Json.str "atTop"
+  | .ready f => Json.str (if f then "finalReady" else "ready")
+  | .locked f => Json.str (if f then "finalLocked" else "locked")
+  | .batch f _ => Json.str (if f then "finalSwapped" else "swapped")
+  | .waiting => Json.str "waiting"
+  | .stopped => Json.str "stopped"
+
+def traceJson (l : List (Op × Bool)) : Json := jArr (l.map fun (o, ok) => jArr [jNat o.prod, jNat o.seq, Json.bool ok])
+
+def programs (j : Json) : Except String (List (List Op)) := do
+  mapM' (fun p => do mapM' toOp (← asArr p)) (← arrField j "programs")
+
+def recsOf (j : Json) : Except String (List Nat) := do
+  match optField j "recs" with
+  | some r => mapM' asNat (← asArr r)
+  | none => pure []
+
+def runH : Handler := fun j => do
+  let ps ← programs j
+  let sched ← mapM' toStep (← arrField j "sched")
+  let cfg := match optField j "cfg" with
+    | some c => toCfg c
+    | none => Cfg.code
+  let s := run cfg applyOp (init Store.empty ps) sched
+  pure (jObj [("applied", traceJson s.applied), ("fl", flJson s.fl), ("batch", jArr ((batchRest s.fl).map opId)),
+              ("buf", jArr (s.buf.map opId)), ("pending", jArr (s.pending.map fun p => jNat p.length)),
+              ("appended", jArr (s.appended.map opId)), ("beforeClose", jArr (s.beforeClose.map opId)),
+              ("stop", Json.bool s.stop), ("lock", Json.bool s.lock), ("store", storeJson s.store (← recsOf j))])
+
+def syncH : Handler := fun j => do
+  let ps ← programs j
+  let r := syncRun applyOp Store.empty ps.flatten
+  pure (jObj [("applied", traceJson r.2), ("store", storeJson r.1 (← recsOf j))])
+
+def handlers : List (String × Handler) := [("c12.run", runH), ("c12.sync", syncH)]
 
 end Drive.Async
